@@ -5,7 +5,9 @@ ID = 'C01'
 LEVEL = 'exploration'
 BUDGET = {'quick': 1200, 'thorough': 5000}
 RULE = ('Hypothesis-generated histories (<= 40 ops: create/add/replace/remove/delete/delete_now/process/clear/'
-        'toggle) over a generated class DAG (3-8 recorder classes, multiple inheritance), ids automatic or '
+        'toggle; newly attached handler components may be armed so that their first on_add/on_remove issues another '
+        'World operation re-entrantly: deferred delete of the own entity, removing itself, deleting / stripping / '
+        'extending another entity, disabling dispatching) over a generated class DAG (3-8 recorder classes, multiple inheritance), ids automatic or '
         'explicit (ints inside the automatic range, str, tuple, bool/float aliases); after EVERY step all seven '
         'queries are compared with a dict-of-dicts reference model for every class and every id ever used plus '
         'two unused ids. Non-trivial = >= 2 mutating steps and at least one of: replacement of an existing '
